@@ -97,6 +97,10 @@ func c06(c *Ctx) {
 	// an address leaves the pool's count only after the cloud confirmed its removal (shared rule): the
 	// cap check counts what the set holds
 	c07R3(c)
+	c06R6(c)
+	// the per-interface cap the pool enforces is the running instance type's (shared rules)
+	c19R3(c)
+	c19R6(c)
 }
 
 // R1: cap check counts in-flight requests, in normal form, before every enqueue.
@@ -813,4 +817,52 @@ func derefLoose(fn *FuncInfo, x ast.Expr) ast.Expr {
 		x = rhs[0]
 	}
 	return x
+}
+
+// R6: the trunk interface is created only into a free slot. initTrunk compares
+// the quota with the number of ALL attached secondary interfaces — the list the
+// factory returned, not a filtered part of it (RDMA and trunk interfaces take a
+// slot like any other).
+func c06R6(c *Ctx) {
+	p := c.P
+	c.Rule("C06.R6", "initTrunk calls CreateNetworkInterface for the trunk only under len(<all attached interfaces>) < poolConfig.MaxENI, where the list is the unfiltered result of Factory.GetAttachedNetworkInterface")
+	fn := p.Func(daemonPkg, "initTrunk")
+	if fn == nil {
+		c.Unres("C06.R6", "initTrunk", "not found")
+		return
+	}
+	var listed types.Object
+	var creates []*ast.CallExpr
+	for _, cs := range p.CallsIn(fn) {
+		if cs.Callee == nil || cs.Lit != nil {
+			continue
+		}
+		switch cs.Callee.Name() {
+		case "GetAttachedNetworkInterface":
+			if _, lhs := assignedFromCall(fn, cs.Call); len(lhs) == 2 && lhs[0] != nil {
+				listed = lhs[0]
+			}
+		case "CreateNetworkInterface":
+			creates = append(creates, cs.Call)
+		}
+	}
+	if listed == nil || len(creates) == 0 {
+		c.Undec("C06.R6", "initTrunk: attached list and create call", p.Pos(fn.Decl), fn.Key(), "enis, err := f.GetAttachedNetworkInterface(…); f.CreateNetworkInterface(…)", fmt.Sprintf("list=%v creates=%d", listed != nil, len(creates)))
+		return
+	}
+	var quota string
+	for _, f := range fn.Decl.Type.Params.List {
+		for _, nm := range f.Names {
+			if typeIs(fn.Info().Defs[nm].Type(), modPath+"/types/daemon", "PoolConfig") {
+				quota = nm.Name + ".MaxENI"
+			}
+		}
+	}
+	if quota == "" {
+		c.Undec("C06.R6", "initTrunk: quota parameter", p.Pos(fn.Decl), fn.Key(), "a *daemon.PoolConfig parameter", "not found")
+		return
+	}
+	for _, call := range creates {
+		c.Require("C06.R6", "initTrunk: a trunk is created only into a free interface slot", fn, call, "len("+listed.Name()+") < "+quota, nil)
+	}
 }
